@@ -36,9 +36,9 @@ void ok_b(bn_t c, const bn_t a) {
 	}
 }
 
-void ok_c(bn_t c, const bn_t a, const bn_t b) {
+void ok_c(bn_t c, const bn_t a, dig_t b) {
 	c->sign = a->sign;
-	bn_sub(c, a, b);
+	bn_sub_dig(c, a, b);
 }
 
 /* sign of the minuend kept for a zero difference */
@@ -73,4 +73,28 @@ void bad_grow_clear__stale(bn_t a, int d) {
 		a->used = d + 1;
 	}
 	bn_trim(a);
+}
+
+void ok_e(bn_t c, const bn_t a, const bn_t b) {
+	int s = a->sign ^ b->sign;
+	bn_t t;
+	bn_null(t);
+	bn_new(t);
+	bn_mul(t, a, b);
+	bn_copy(c, t);
+	c->sign = s;
+	bn_trim(c);
+	bn_free(t);
+}
+
+/* the sign of an operand is read after the result was stored */
+void bad_alias_rw__sign(bn_t c, const bn_t a, const bn_t b) {
+	bn_t t;
+	bn_null(t);
+	bn_new(t);
+	bn_mul(t, a, b);
+	bn_copy(c, t);
+	c->sign = a->sign ^ b->sign;
+	bn_trim(c);
+	bn_free(t);
 }
